@@ -470,6 +470,59 @@ OpQuery ==
     [] E.desc.kind = "mixed" -> OpQueryMixed
 
 -----------------------------------------------------------------------------
+(* SPEC-DRIFT: the strict, implementation-shaped model (WorldStore) applied to the previous dump    *)
+(* must give the next dump (slots, free list in order, identifier columns in order, both lookups,   *)
+(* len).  A disagreement is not a property violation (policy is free); it means the exhaustive      *)
+(* model-checking result of MCWorld no longer speaks for this code, and is reported as DRIFT.       *)
+WS == INSTANCE WorldStore WITH NComp <- 5
+StoreOfDump(d) ==
+  LET bitsOf(t) == d.tables[t + 1].bits
+      keys == {d.tables[k].bits : k \in DOMAIN d.tables} IN
+  [slots |-> [i \in DOMAIN d.slots |->
+                [g |-> d.slots[i].g,
+                 loc |-> IF d.slots[i].a /\ d.slots[i].t >= 0 /\ d.slots[i].t < Len(d.tables)
+                         THEN [t |-> bitsOf(d.slots[i].t), r |-> d.slots[i].r] ELSE WS!NoLoc]],
+   free |-> d.free,
+   tables |-> [b \in keys |->
+                 LET t == d.tables[CHOOSE k \in DOMAIN d.tables : d.tables[k].bits = b] IN
+                 [ids |-> t.idg, cols |-> [c \in WS!CompsOf(b) |-> t.idg]]],
+   tl |-> {bitsOf(d.tl[k]) : k \in {k \in DOMAIN d.tl : d.tl[k] >= 0 /\ d.tl[k] < Len(d.tables)}},
+   fl |-> {bitsOf(d.fl[k][2]) : k \in {k \in DOMAIN d.fl : d.fl[k][2] >= 0 /\ d.fl[k][2] < Len(d.tables)}},
+   len |-> d.len]
+ShapeEq(a, b) ==
+  /\ a.slots = b.slots /\ a.free = b.free /\ a.tl = b.tl /\ a.fl = b.fl /\ a.len = b.len
+  /\ DOMAIN a.tables = DOMAIN b.tables
+  /\ \A k \in (DOMAIN a.tables) \cap (DOMAIN b.tables) : a.tables[k].ids = b.tables[k].ids
+RECURSIVE BitsOfOrder(_)
+BitsOfOrder(order) == IF order = <<>> THEN 0 ELSE 2 ^ Head(order) + BitsOfOrder(Tail(order))
+Dummy(bits) == [c \in WS!CompsOf(bits) |-> <<0, 0>>]
+PreStore(w) == IF PreWs[w].live THEN StoreOfDump(PreWs[w].dump) ELSE WS!EmptyStore
+PostStore(w) == StoreOfDump(PostWs[w].dump)
+StrictNext ==
+  LET s == PreStore(E.w) IN
+  CASE E.op = "new" -> WS!EmptyStore
+    [] E.op = "insert" -> WS!Insert(s, BitsOfOrder(E.order), Dummy(BitsOfOrder(E.order))).s
+    [] E.op = "extend" -> WS!Extend(s, BitsOfOrder(E.order),
+                                    [k \in 1..Len(EffRows) |-> Dummy(BitsOfOrder(E.order))]).s
+    [] E.op = "remove" -> WS!RemoveEntity(s, E.idp)
+    [] E.op = "clear" -> WS!Clear(s, [k \in DOMAIN PreWs[E.w].dump.tables |-> PreWs[E.w].dump.tables[k].bits])
+    [] E.op = "add" -> WS!EntryAdd(s, E.idp, E.c, <<0, 0>>)
+    [] E.op = "remc" -> WS!EntryRemove(s, E.idp, E.c)
+    [] E.op = "add2" ->
+         LET st(x, c, rm) == IF rm THEN WS!EntryRemove(x, E.idp, c) ELSE WS!EntryAdd(x, E.idp, c, <<0, 0>>) IN
+         st(st(s, E.c, E.rm[1]), E.c2, E.rm[2])
+    [] E.op = "reserve" -> WS!Reserve(s, BitsOfOrder(E.order))
+    [] E.op = "shrink" -> WS!ShrinkToFit(s)
+    [] E.op = "clone_from" -> WS!CloneFrom(s, PreStore(E.src))
+    [] OTHER -> s
+DriftTarget == IF E.op \in {"clone", "serde"} THEN E.dst ELSE E.w
+DriftChecks ==
+  IF E.op \in {"reset", "drop", "panicked", "deser_mut"} THEN TRUE
+  ELSE IF E.op = "clone" THEN Chk("DRIFT", "strict-model-disagrees", PostWs[E.dst].live => ShapeEq(PostStore(E.dst), WS!CloneOf(PreStore(E.w))))
+  ELSE IF E.op = "serde" THEN Chk("DRIFT", "strict-model-disagrees", (E.res.ok /\ PostWs[E.dst].live) => ShapeEq(PostStore(E.dst), WS!SerDeOf(PreStore(E.w))))
+  ELSE Chk("DRIFT", "strict-model-disagrees", PostWs[E.w].live => ShapeEq(PostStore(E.w), StrictNext))
+
+-----------------------------------------------------------------------------
 (* Lock-step twins (C06 / C10): an op flagged m=2 repeats the previous op on  *)
 (* the twin world and must have the same results and leave the same content.  *)
 Touched ==
@@ -566,6 +619,7 @@ FullStep ==
   /\ \A w \in Worlds : PostWs[w].live => WorldChecks(w)
   /\ EqChecks
   /\ MirrorChecks
+  /\ DriftChecks
   /\ twin' = TwinNext
   /\ IF E.op = "panicked" THEN heap' = {} ELSE HeapChecks /\ heap' = HeapNext
 
